@@ -4,6 +4,7 @@ import (
 	"go/ast"
 	"go/token"
 	"go/types"
+	"sort"
 	"strings"
 
 	"verif/checker/fw"
@@ -32,6 +33,8 @@ func init() {
 			"errors of the cache store flow only into the error reporter and the store is never called with the data lock held; both cache keys combine the entity hash with the selection hash taken before the input buffer is rewritten; " +
 			"every Cache-Control field the decision reads is filled by the arm of the directive switch for the RFC 9111 directive of that name. It does not decide transparency over request histories nor the Cache-Control lexer over all strings.",
 		Mutants: []Mutant{
+			{Name: "the request extensions are left out of the cache key again (reverts part of the F78 fix)", File: "v2/pkg/engine/resolve/loader.go", Rule: "C16-R9", Key: "Context.Extensions/fed-to-the-key",
+				Old: "\t\t\tundefinedVariables,\n\t\t\tl.ctx.Extensions,\n\t\t)\n\t\tresponseCacheItemHash", New: "\t\t\tundefinedVariables,\n\t\t\tnil,\n\t\t)\n\t\tresponseCacheItemHash"},
 			{Name: "entities are stored from 3xx responses again (reverts the F77 fix)", File: "v2/pkg/engine/resolve/response_cache.go", Rule: "C16-R2", Key: "status<300",
 				Old: "if res.err != nil || len(res.out) == 0 || res.statusCode >= 300 {", New: "if res.err != nil || len(res.out) == 0 || res.statusCode >= 400 {"},
 			{Name: "cache error callback called without a nil test (seeded change C16-22)", File: respCacheGo, Rule: "C16-R7", Key: "reportResponseCacheError/optional-callback-nil-checked:onError",
@@ -39,7 +42,7 @@ func init() {
 			{Name: "single-flight follower no longer restores the shared status code (seeded change C16-23)", File: "v2/pkg/engine/resolve/loader.go", Rule: "C16-R8", Key: "follower-mirrors:StatusCode<-item.statusCode",
 				Old: "\t\t\trc.StatusCode = item.statusCode\n", New: ""},
 			{Name: "undefined variables no longer part of the selection hash (the repaired defect F15)", File: loaderGo, Rule: "C16-R5", Key: "prepareEntityFetch/hash<-undefined-variables",
-				Old: "\t\t\trendered[responseCacheFooterStart:],\n\t\t\tundefinedVariables,\n\t\t)\n\t\tresponseCacheItemHash :=", New: "\t\t\trendered[responseCacheFooterStart:],\n\t\t\tnil,\n\t\t)\n\t\tresponseCacheItemHash :="},
+				Old: "\t\t\trendered[responseCacheFooterStart:],\n\t\t\tundefinedVariables,\n\t\t\tl.ctx.Extensions,\n\t\t)\n\t\tresponseCacheItemHash :=", New: "\t\t\trendered[responseCacheFooterStart:],\n\t\t\tnil,\n\t\t\tl.ctx.Extensions,\n\t\t)\n\t\tresponseCacheItemHash :="},
 			{Name: "non-positive default TTL replaced by one minute (seeded change C16-13)", File: "v2/pkg/engine/resolve/context.go", Rule: "C16-R1", Key: "SetResponseCache/default-ttl-is-the-configured-value",
 				Old: "\tc.responseCache = &responseCache{store: cache, defaultTTL: defaultTTL, onError: onError}", New: "\tif defaultTTL <= 0 {\n\t\tdefaultTTL = time.Minute\n\t}\n\tc.responseCache = &responseCache{store: cache, defaultTTL: defaultTTL, onError: onError}"},
 			{Name: "private no longer refuses storing", File: ttlGo, Rule: "C16-R1", Key: "private",
@@ -72,6 +75,7 @@ func init() {
 }
 
 func runC16(r *fw.Run) {
+	defer c16KeyCoversLateInjections(r)
 	p := r.Prog
 	defer c16DefaultTTLUnchanged(r)
 	defer c16OptionalCallbacksNilChecked(r)
@@ -1069,4 +1073,75 @@ func selName(e ast.Expr) string {
 		return s.Sel.Name
 	}
 	return ""
+}
+
+// c16KeyCoversLateInjections (R9): the cache key is computed while the fetch input is rendered. What the loader puts into
+// the request body afterwards, on the way to the data source, is part of the subgraph request and not of the rendered
+// input: if it can differ between two client requests, they are different subgraph requests that would share one entry.
+// Every field of resolve.Context that a Loader method injects into the request input (jsonparser.Set(input, ctx.F, …))
+// is also handed to the function that computes the key's selection hash, at every site that computes a key.
+func c16KeyCoversLateInjections(r *fw.Run) {
+	p := r.Prog
+	r.Rule("C16-R9", "every resolve.Context field that a Loader method injects into the request input after rendering (jsonparser.Set(input, ctx.F, …)) is an argument of the cache key's selection hash at every site that computes a key")
+	injected := map[string]string{} // field → where
+	var keySites []*ast.CallExpr
+	var keyInfos []*types.Info
+	var keyFuncs []string
+	hashFn := p.Func("resolve", "responseCacheSelectionHash")
+	if hashFn == nil {
+		r.Error("C16-R9: responseCacheSelectionHash not found")
+		return
+	}
+	for _, fi := range p.Funcs("resolve") {
+		if !strings.HasPrefix(fi.Name(), "Loader.") {
+			continue
+		}
+		info := fi.Info()
+		fw.WalkAll(fi.Decl.Body, func(nd ast.Node) bool {
+			c, ok := nd.(*ast.CallExpr)
+			if !ok {
+				return true
+			}
+			fn := fw.Callee(info, c)
+			if fn == nil {
+				return true
+			}
+			if fn == hashFn.Obj {
+				keySites = append(keySites, c)
+				keyInfos = append(keyInfos, info)
+				keyFuncs = append(keyFuncs, fi.Name())
+			}
+			if fn.Name() == "Set" && fn.Pkg() != nil && strings.HasSuffix(fn.Pkg().Path(), "/jsonparser") && len(c.Args) >= 2 {
+				if fv, _ := fw.Field(info, c.Args[1]); fv != nil && fw.IsFieldSel(info, c.Args[1], "resolve", "Context", fv.Name()) {
+					injected[fv.Name()] = p.Pos(c.Pos())
+				}
+			}
+			return true
+		})
+	}
+	n := 0
+	var fields []string
+	for f := range injected {
+		fields = append(fields, f)
+	}
+	sort.Strings(fields)
+	for _, f := range fields {
+		missing := ""
+		for i, site := range keySites {
+			fed := false
+			for _, a := range site.Args {
+				if fw.IsFieldSel(keyInfos[i], a, "resolve", "Context", f) {
+					fed = true
+				}
+			}
+			if !fed {
+				missing = keyFuncs[i] + " (" + p.Pos(site.Pos()) + ")"
+			}
+		}
+		n++
+		r.Check(missing == "" && len(keySites) > 0, "C16-R9", "Context."+f+"/fed-to-the-key", injected[f], "Context."+f+", which the loader injects into the request body at "+injected[f]+", is fed to the selection hash at every key site",
+			"Context."+f+" is put into the request body after the cache key was computed and is not an argument of the selection hash in "+missing+": two client requests that differ only in it are different subgraph requests and share one cache entry — the second is answered with what the subgraph said to the first")
+	}
+	r.Expect("C16-R9", "Context fields injected into the request input by the loader", n, 1)
+	r.Note("C16-R9: %d key sites", len(keySites))
 }
